@@ -275,6 +275,7 @@ class _TraceHandle:
         self.count = 0
         self.fired = False
         self.where = None
+        self.where_file = None
         self.depth = 0          # >0 while inside a target function
         self._seams = seams
 
@@ -310,6 +311,7 @@ class _TraceHandle:
         if self.at is not None and self.count == self.at and not self.fired:
             self.fired = True
             self.where = "%s:%s" % (frame.f_code.co_name, frame.f_lineno)
+            self.where_file = os.path.basename(frame.f_code.co_filename)
             self._seams.fired("interrupt")
             raise InjectedInterrupt(self.where)
 
